@@ -5,6 +5,7 @@ import (
 	"go/types"
 
 	"github.com/awslabs/ar-go-tools/analysis/config"
+	"github.com/awslabs/ar-go-tools/analysis/summaries"
 	"github.com/awslabs/ar-go-tools/internal/pointer"
 	"golang.org/x/tools/go/ssa"
 )
@@ -83,6 +84,7 @@ func verifExternal(name string, np, nr int, pkg *ssa.Package) *ssa.Function {
 		p := hParam("p")
 		verifSetUnexported(p, "parent", fn)
 		verifSetUnexported(p, "typ", types.Type(types.Typ[types.Int]))
+		verifSetUnexported(p, "object", types.NewVar(token.NoPos, nil, "p", types.Typ[types.Int]))
 		fn.Params = append(fn.Params, p)
 	}
 	return fn
@@ -153,5 +155,86 @@ func VerifNewMainWorld(x, y, a0, a1 int) *VerifMainWorld {
 	w.SrcA = link(cA, srcA, 2)
 	w.SrcB = link(cB, srcB, 3)
 	w.Sink = link(cS, sink, 4)
+	return w
+}
+
+// VerifTaintWorld is a hand-built `main`:
+//
+//	t0 = source(); t1 = other(); r = g(t0, t1); sink(v) with v one of t0, t1, r
+//
+// main is summarised by the real intra-procedural analysis; g is an external function whose summary is loaded from
+// a specification matrix by the real PopulateGraphFromSummary (as a dataflow-specs file would do).
+type VerifTaintWorld struct {
+	State  *AnalyzerState
+	Main   *SummaryGraph
+	Source *CallNode
+	Sink   *CallNode
+	G      *CallNode
+	Err    error
+}
+
+func VerifNewTaintWorld(args, rets [][]int, sinkOperand int) *VerifTaintWorld {
+	w := &VerifTaintWorld{}
+	intT := types.Type(types.Typ[types.Int])
+	pkg := &ssa.Package{Pkg: types.NewPackage("example.com/p", "p")}
+	prog := &ssa.Program{Fset: token.NewFileSet()}
+	mainFn := &ssa.Function{Signature: hSig(0, 0), Prog: prog, Pkg: pkg}
+	verifSetUnexported(mainFn, "name", "main")
+	source := verifExternal("source", 0, 1, pkg)
+	other := verifExternal("other", 0, 1, pkg)
+	g := verifExternal("g", 2, 1, pkg)
+	sink := verifExternal("sink", 1, 0, pkg)
+	blk := &ssa.BasicBlock{Index: 0}
+	typed := func(i ssa.Instruction, t types.Type) { verifSetUnexported(i, "typ", t) }
+	cSrc := &ssa.Call{}
+	cSrc.Call.Value = source
+	typed(cSrc, intT)
+	cOther := &ssa.Call{}
+	cOther.Call.Value = other
+	typed(cOther, intT)
+	cG := &ssa.Call{}
+	cG.Call.Value = g
+	cG.Call.Args = []ssa.Value{cSrc, cOther}
+	typed(cG, intT)
+	vals := []ssa.Value{cSrc, cOther, cG}
+	cSink := &ssa.Call{}
+	cSink.Call.Value = sink
+	cSink.Call.Args = []ssa.Value{vals[sinkOperand]}
+	typed(cSink, types.Type(types.NewTuple()))
+	ret := &ssa.Return{}
+	hSetBlock(mainFn, blk, []ssa.Instruction{cSrc, cOther, cG, cSink, ret})
+	mainFn.Blocks = []*ssa.BasicBlock{blk}
+	cfg := &config.Config{}
+	s := &AnalyzerState{
+		Config:          cfg,
+		Logger:          &config.LogGroup{},
+		Program:         prog,
+		PointerAnalysis: &pointer.Result{Queries: map[ssa.Value]pointer.Pointer{}, IndirectQueries: map[ssa.Value]pointer.Pointer{}},
+		Globals:         map[*ssa.Global]*GlobalNode{},
+		FlowGraph:       &InterProceduralFlowGraph{Summaries: map[*ssa.Function]*SummaryGraph{}},
+	}
+	w.State = s
+	track := func(*AnalyzerState, ssa.Node) bool { return false }
+	w.Main = NewSummaryGraph(s, mainFn, 1, track, nil)
+	_, w.Err = RunIntraProcedural(s, w.Main)
+	s.FlowGraph.Summaries[mainFn] = w.Main
+	link := func(call *ssa.Call, callee *ssa.Function, id uint32, spec *summaries.Summary) *CallNode {
+		sg := NewSummaryGraph(s, callee, id, track, nil)
+		if spec != nil {
+			sg.PopulateGraphFromSummary(*spec, false)
+		}
+		sg.Constructed = true
+		s.FlowGraph.Summaries[callee] = sg
+		cn := w.Main.Callees[call][callee]
+		if cn != nil {
+			cn.CalleeSummary = sg
+			sg.Callsites[call] = cn
+		}
+		return cn
+	}
+	w.Source = link(cSrc, source, 2, nil)
+	link(cOther, other, 3, nil)
+	w.G = link(cG, g, 4, &summaries.Summary{Args: args, Rets: rets})
+	w.Sink = link(cSink, sink, 5, nil)
 	return w
 }
